@@ -319,12 +319,16 @@ class MindsDBLexer(Lexer):
     def INTEGER(self, t):
         return t
 
-    @_(r"'(?:\\.|[^'])*(?:''(?:\\.|[^'])*)*'")
+    # a backslash pairs with the character after it; one that cannot (before a line break) or that turns out to stand
+    # before the closing quote is a character of its own.  The alternatives do not overlap: with `[^']` also matching a
+    # backslash, a text without a closing quote made the matcher try every way of pairing the backslashes
+    # (`'` followed by twenty pairs of backslashes took minutes to be refused)
+    @_(r"'(?:\\.|[^'\\]|\\(?=['\n]))*(?:''(?:\\.|[^'\\]|\\(?=['\n]))*)*'")
     def QUOTE_STRING(self, t):
         # the token keeps the text as written; escapes are decoded by the parser (quote_string)
         return t
 
-    @_(r'"(?:\\.|[^"])*"')
+    @_(r'"(?:\\.|[^"\\]|\\(?=["\n]))*"')
     def DQUOTE_STRING(self, t):
         return t
 
